@@ -147,6 +147,12 @@ class HeuristicTopoPass( UnrollSimPass ):
       hostobj = top.get_update_block_host_component( blk )
       branchiness[ blk ], _ = visitor.enter( hostobj.get_update_block_info( blk )[-1] )
 
+    # Update blocks that call blocking methods were replaced by their
+    # greenlet tickers in WrapGreenletPass. The ticker is what gets
+    # scheduled; like Mamba2020Pass we give it 0 branchiness.
+    for gblk in getattr( top._dag, "blk_greenlet_mapping", {} ).values():
+      branchiness[ gblk ] = 0
+
     # Perform topological sort for a serial schedule.
     # Note that here we use a priority queue to get the blocks with small
     # branchiness as early as possible
